@@ -1,8 +1,10 @@
 /-
   Generators of well-formed WAL records / segments / pg_wal directories from the Spec types
   (driver path, core only).  Boundary heavy: records ending exactly at a page end, records leaving
-  8 or 16 bytes on a page (next header straddles), records spanning three pages, block references with
-  every flag combination, short and long main-data headers.
+  8 or 16 bytes on a page (next header straddles), records spanning three and more pages — among them records
+  longer than 16384 bytes (fixes/wal/11: the tool used to give up there; the format allows up to XLogRecordMaxSize) —,
+  block references with every flag combination, short and long main-data headers, every (rmid, info) combination
+  incl. the INIT_PAGE bit 0x80 of Heap / Heap2 / BRIN (fixes/wal/12).
 -/
 import PgVerif.Basic.Canon
 import PgVerif.Spec.Wal
@@ -57,6 +59,9 @@ def genRmInfo : Gen (Nat × Nat) := do
   | 0 => return (← Gen.below 256, ← Gen.below 256)
   | 1 | 2 => return (1, (← Gen.oneOf [0x00, 0x20, 0x30, 0x40, 0x10, 0x50, 0x60]) + (← Gen.oneOf [0, 0x80, 1]))
   | 3 => return (4, ← Gen.oneOf [0x00, 0x10, 0x20, 0x30])
+  -- the INIT_PAGE combinations PostgreSQL names and those it does not (fixes/wal/12), HEAP_CONFIRM / INVALIDATION (13)
+  | 4 => return (← Gen.oneOf [(10, 0x80), (10, 0xA0), (10, 0xC0), (10, 0x90), (10, 0xD0), (10, 0x50), (9, 0xD0), (9, 0x90),
+                              (9, 0x80), (17, 0x90), (17, 0xA0), (17, 0x80), (17, 0xB0), (1, 0x60), (1, 0xE0)])
   | _ => return (← Gen.below 22, 16 * (← Gen.below 16) + (← Gen.oneOf [0, 0, 0, 1, 2, 15]))
 
 /-- main-data length that makes headers + data fill at most `room` bytes -/
@@ -141,12 +146,13 @@ def genRecords (pre15 : Bool) (pre : Nat) (pages : Nat) (allowKf : Bool) : Gen (
           | 3 => pure (room - 8)                     -- leave 8 bytes: next header straddles
           | 4 => pure (room - 16)
           | 5 => pure (room - 24)                    -- leave exactly one header's worth
-          | 6 => if dense then Gen.range 24 120 else Gen.range 8200 16000   -- spans two or three pages
-          | 7 => if dense then Gen.oneOf [24, 27, 32, 40] else Gen.oneOf [16000, 15999, 24, 27, 281, 282, 285, 8168, 8152]
+          | 6 => if dense then Gen.range 24 120 else Gen.range 8200 34000   -- spans two to six pages
+          | 7 => if dense then Gen.oneOf [24, 27, 32, 40] else
+                   Gen.oneOf [16000, 15999, 16384, 16385, 16392, 24504, 40000, 70000, 24, 27, 281, 282, 285, 8168, 8152]
           | 8 | 9 => if dense then Gen.range 24 120 else Gen.range 200 3000
           | 10 => pure 24
           | _ => Gen.range 24 200
-        let want := min (min (max want 24) 16000) left
+        let want := min (max want 24) left
         let r ← genRecord pre15 want (!allowKf)
         out := out.push r
         o := o + align8 r.totLen
